@@ -116,7 +116,9 @@ impl World {
             XOp::Poll { blocks, fail } => {
                 let first = self.live.sys.chain.len();
                 for txs in blocks {
-                    self.live.mine(txs.clone());
+                    // (in the "mined while down" variant a transaction of the history may already be in the chain)
+                    let confirmed: BTreeSet<u32> = self.live.sys.chain.iter().flat_map(|b| b.3.iter().cloned()).collect();
+                    self.live.mine(txs.iter().filter(|t| !confirmed.contains(t)).cloned().collect());
                 }
                 if let Some(f) = fail {
                     let h = self.live.sys.chain[first + f].1.block_hash();
@@ -324,6 +326,14 @@ pub fn run(seed: u64, thorough: bool, rep: &mut Report) {
             let enc = |l: u32| BlobSpec::Enc { dispute: l, penalty: 1000 + l * 10, len: 260 };
             vec![XOp::Reg(1), XOp::Add { user: 1, loc: 1, blob: enc(1), tsd: 5 }, XOp::Add { user: 1, loc: 2, blob: enc(2), tsd: 5 },
                  XOp::Poll { blocks: vec![vec![1], vec![2], vec![]], fail: Some(1) }, XOp::Get { user: 1, loc: 2 }, XOp::Poll { blocks: vec![vec![]], fail: None }]
+        } else if c == 1 {
+            // a tracker reaches 100 confirmations inside one long poll: the refunding deletion is crashed at each of its
+            // durable-write points
+            let enc = |l: u32| BlobSpec::Enc { dispute: l, penalty: 1000 + l * 10, len: 2049 };
+            vec![XOp::Reg(1), XOp::Add { user: 1, loc: 1, blob: enc(1), tsd: 5 }, XOp::Add { user: 1, loc: 2, blob: enc(2), tsd: 5 },
+                 XOp::Poll { blocks: vec![vec![1]], fail: None }, XOp::Poll { blocks: vec![vec![1010]], fail: None },
+                 XOp::Poll { blocks: vec![vec![]; 99], fail: None }, XOp::Poll { blocks: vec![vec![], vec![]], fail: None },
+                 XOp::Get { user: 1, loc: 1 }, XOp::Poll { blocks: vec![vec![]], fail: None }]
         } else {
             gen_history(&mut rng, nops)
         };
@@ -566,6 +576,15 @@ pub fn run(seed: u64, thorough: bool, rep: &mut Report) {
                             set.retain(|k| pre.contains(k));
                         }
                     }
+                    // no request was in flight during a poll: balances must be those of the uninterrupted run as well
+                    // (slots only, and only of users that existed when the process died: later registrations may happen at
+                    // another height when the restart skipped or replayed blocks)
+                    let users_differ = !mined && matches!(op, XOp::Poll { .. }) && before.users.keys().any(|u| fin.users.get(u).map(|x| x.0) != reference_final.users.get(u).map(|x| x.0));
+                    if users_differ && ka == kb && aa == ab {
+                        let prev_poll = ops[..i].iter().rev().find(|o| matches!(o, XOp::Poll { .. }));
+                        let partial = matches!(op, XOp::Poll { fail: Some(_), .. }) || matches!(prev_poll, Some(XOp::Poll { fail: Some(_), .. }));
+                        rep.fail("C03", if partial { "restart_after_partial_poll_skips_blocks" } else { "crash_during_block_processing_changed_a_balance" }, &format!("after crash in op {i} ({op:?}) point {j} and catching up: users {:?} vs {:?} in the uninterrupted run", fin.users, reference_final.users));
+                    }
                     if matches!(op, XOp::Poll { .. }) && (ka != kb || aa != ab) {
                         let prev_poll = ops[..i].iter().rev().find(|o| matches!(o, XOp::Poll { .. }));
                         let partial = matches!(op, XOp::Poll { fail: Some(_), .. }) || matches!(prev_poll, Some(XOp::Poll { fail: Some(_), .. }));
@@ -574,7 +593,10 @@ pub fn run(seed: u64, thorough: bool, rep: &mut Report) {
                         // was down; replaying the block the node answers "already in chain" and the tower records
                         // nothing: the appointment stays watched, no tracker follows the penalty
                         let confirmed: BTreeSet<u32> = w.live.sys.chain.iter().flat_map(|b| b.3.iter().cloned()).collect();
-                        let untracked_confirmed = mined && aa == ab && ka.is_subset(&kb) && kb.difference(&ka).all(|k| {
+                        let differing: BTreeSet<(u32, u32)> = ka.symmetric_difference(&kb).chain(aa.symmetric_difference(&ab)).cloned().collect();
+                        let untracked_confirmed = mined && differing.iter().all(|k| {
+                            // still held, not tracked, and its penalty had been handed to the node and got confirmed
+                            fin.appts.contains_key(k) && !fin.trackers.contains_key(k) &&
                             // (the blob as it was when the process died: without a tracker a later submission may replace it)
                             match before.appts.get(k).or(fin.appts.get(k)).and_then(|a| w.live.sys.blobs.get(&a.0)) {
                                 Some(BlobSpec::Enc { penalty, .. }) => w.sent.contains(penalty) && confirmed.contains(penalty),
